@@ -207,7 +207,7 @@ fn check_foreign_x(items: &[Vec<u8>], utf8: bool, as_name: bool, alt: u8, st: &m
     }
 }
 
-pub const HOWS: [&str; 8] = ["start_file", "start_file+ZipCrypto", "add_directory", "add_symlink", "start_file_with_extra_data", "start_file_aligned", "start_file(large_file, deflated)", "raw_copy_file_rename"];
+pub const HOWS: [&str; 9] = ["start_file", "start_file+ZipCrypto", "add_directory", "add_symlink", "start_file_with_extra_data", "start_file_aligned", "start_file(large_file, deflated)", "raw_copy_file_rename", "start_file_with_extra_data(large_file) with a longer central-only part"];
 const WPW: &[u8] = b"n";
 
 /// Writer side: the given names are written by the real writer (empty stored entries).
@@ -241,6 +241,16 @@ fn check_writer_how(names_in: &[String], how: u8, st: &mut Stats, order0: u64) {
                 calls.push(Call::Write(b"y".to_vec()));
             }
             7 => calls.push(Call::RawCopy { src: 0, idx: 0, rename: Some(n.clone()), raw_open: false }),
+            // large_file + extra data whose central part is longer than the local one (the name sits right in front of the
+            // local ZIP64 block that gets patched when the entry ends)
+            8 => {
+                calls.push(Call::StartExtra { name: n.clone(), opts: FOpts { large: true, ..FOpts::m(8) } });
+                calls.push(Call::Write(crate::reference::zipbuild::extra_block(0xbeef, b"l")));
+                calls.push(Call::EndLocalStartCentral);
+                calls.push(Call::Write(crate::reference::zipbuild::extra_block(0xcafe, b"a central part of some length")));
+                calls.push(Call::EndExtra);
+                calls.push(Call::Write(b"content of the entry".to_vec()));
+            }
             _ => calls.push(Call::StartFile { name: n.clone(), opts: FOpts::m(0) }),
         }
     }
@@ -404,10 +414,10 @@ pub fn run(args: &Args) -> i32 {
     ctx.stats.merge(st);
     // the same strings through every other call that takes a name
     let chunks2: Vec<&[String]> = names.chunks(200).collect();
-    let s = par_for(chunks2.len() as u64 * 7, 1, |t, st| {
-        let how = 1 + (t % 7) as u8;
+    let s = par_for(chunks2.len() as u64 * 8, 1, |t, st| {
+        let how = 1 + (t % 8) as u8;
         // an empty directory name is not a name ("" + "/" is the root): the writer's choice is not C19's business
-        let chunk: Vec<String> = chunks2[(t / 7) as usize].iter().filter(|n| !(how == 2 && n.is_empty())).cloned().collect();
+        let chunk: Vec<String> = chunks2[(t / 8) as usize].iter().filter(|n| !(how == 2 && n.is_empty())).cloned().collect();
         check_writer_how(&chunk, how, st, (6 << 30) + (t << 12));
     });
     ctx.stats.merge(s);
